@@ -2,8 +2,8 @@
 (* Trace validation for C04: every line of the ndjson trace recorded from the   *)
 (* real xoptional / xmasked_value objects must be a step of Lifted (L1) with the *)
 (* logged arguments: the logged result must be an answer the property allows    *)
-(* (the action is enabled for it) and the logged registers, referents and        *)
-(* evaluation counter must be the spec's next state.                             *)
+(* (the action is enabled for it) and the logged registers, referents, shared    *)
+(* cells and evaluation counter must be the spec's next state.                   *)
 EXTENDS Lifted, IOUtils
 
 VARIABLE l     \* next line of the trace to be explained
@@ -12,34 +12,47 @@ JsonTrace == ndJsonDeserialize(IOEnv.TRACE)
 ExplainAt == atoi(IOEnv.EXPLAIN)
 
 Fresh0(n) == [i \in 1..n |-> PlainZero]
+Id(n) == [i \in 1..n |-> i]
 
 TInit ==
     /\ l = 1
     /\ r = Fresh0(3)
+    /\ va = Id(3) /\ fa = Id(3)
     /\ evals = 0
-    /\ last = [op |-> "Init", a |-> [z |-> 0], res |-> Canon(VoidW)]
-    /\ pre = r
+    /\ last = [op |-> "Init", a |-> [z |-> 0], res |-> Canon0(VoidW)]
+    /\ pre = [r |-> r, va |-> va, fa |-> fa]
 
 (* a new execution: n fresh registers (plain 0), evaluation counter reset *)
 TReset(e) ==
     /\ r' = Fresh0(e.a.n)
+    /\ va' = Id(e.a.n) /\ fa' = Id(e.a.n)
     /\ evals' = 0
-    /\ pre' = r
+    /\ pre' = [r |-> r, va |-> va, fa |-> fa]
     /\ last' = [op |-> "Reset", a |-> e.a, res |-> e.res]
+(* validation resumes behind an event that was rejected and reported: the spec takes over the recorded state *)
+TSync(e) ==
+    /\ r' = [i \in 1..Len(e.st.r) |-> [kind |-> e.st.r[i].kind, has |-> e.st.r[i].has, val |-> e.st.r[i].val]]
+    /\ va' = [i \in 1..Len(e.st.r) |-> e.st.r[i].al.v]
+    /\ fa' = [i \in 1..Len(e.st.r) |-> e.st.r[i].al.f]
+    /\ evals' = e.st.evals
+    /\ pre' = [r |-> r, va |-> va, fa |-> fa]
+    /\ last' = [op |-> "Sync", a |-> e.a, res |-> Canon0(VoidW)]
 
 NR == Len(r)            \* the number of registers of this execution
 InR(i) == i \in 1..NR
 
 Dispatch(e) == LET a == e.a  o == e.res IN
     \/ e.op = "Reset"     /\ TReset(e)
+    \/ e.op = "Sync"      /\ TSync(e)
     \/ e.op = "Load"      /\ Load(a.i, a.how, a.has, a.v, o)
+    \/ e.op = "Alias"     /\ Alias(a.i, a.how, a.j, a.has, o)
     \/ e.op = "Unary"     /\ Unary(a.f, a.i, a.d, o)
     \/ e.op = "Binary"    /\ Binary(a.f, a.i, a.j, a.d, o)
     \/ e.op = "Ternary"   /\ Ternary(a.f, a.i, a.j, a.k, a.d, o)
     \/ e.op = "Compare"   /\ Compare(a.f, a.i, a.j, o)
     \/ e.op = "Compound"  /\ Compound(a.f, a.i, a.j, o)
     \/ e.op = "Select"    /\ Select(a.c, a.i, a.j, a.d, o)
-    \/ e.op = "ValueOr"   /\ ValueOr(a.i, a.dv, o)
+    \/ e.op = "ValueOr"   /\ ValueOr(a.i, a.dv, a.form, o)
     \/ e.op = "Get"       /\ Get(a.i, a.path, o)
     \/ e.op = "SetFlag"   /\ SetFlag(a.i, a.b, o)
     \/ e.op = "SetVal"    /\ SetVal(a.i, a.v, o)
@@ -48,25 +61,27 @@ Dispatch(e) == LET a == e.a  o == e.res IN
     \/ e.op = "AssignReg" /\ AssignReg(a.i, a.j, o)
     \/ e.op = "Swap"      /\ Swap(a.i, a.j, a.how, o)
 
-(* what the property demands of the call in event e (printed when a trace is rejected) *)
-Expected(e) == LET a == e.a IN
-    CASE e.op = "Unary"    -> WUnary(a.f, a.i)
-      [] e.op = "Binary"   -> WBinary(a.f, a.i, a.j)
-      [] e.op = "Ternary"  -> WTernary(a.f, a.i, a.j, a.k)
-      [] e.op = "Compare"  -> WCompare(a.f, a.i, a.j)
-      [] e.op = "Compound" -> WCompound(a.f, a.i, a.j)
-      [] e.op = "Select"   -> WSelect(a.c, a.i, a.j)
-      [] e.op = "ValueOr"  -> WValueOr(a.i, a.dv)
-      [] e.op = "Get"      -> Want("get", r[a.i].has, r[a.i].val, TRUE, FALSE)
-      [] e.op = "Load"     -> WLoad(a.how, a.has, a.v)
-      [] OTHER             -> VoidW
+(* what the property demands of the call in event e (printed when a trace is rejected); for a Crash event: of the *)
+(* call during which the driver crashed                                                                          *)
+Exp0(op, a) ==
+    CASE op = "Unary"    -> WUnary(a.f, a.i)
+      [] op = "Binary"   -> WBinary(a.f, a.i, a.j)
+      [] op = "Ternary"  -> WTernary(a.f, a.i, a.j, a.k)
+      [] op = "Compare"  -> WCompare(a.f, a.i, a.j)
+      [] op = "Compound" -> WCompound(a.f, a.i, a.j)
+      [] op = "Select"   -> WSelect(a.c, a.i, a.j)
+      [] op = "ValueOr"  -> WValueOr(a.i, a.dv)
+      [] op = "Get"      -> Loose("get", r[a.i].has, r[a.i].val, TRUE)
+      [] op = "Load"     -> WLoad(a.how, a.has, a.v)
+      [] OTHER           -> VoidW
+Expected(e) == IF e.op = "Crash" THEN Exp0(e.a.call.op, e.a.call.a) ELSE Exp0(e.op, e.a)
 
 TNext ==
     /\ l <= Len(JsonTrace)
     /\ LET e == JsonTrace[l] IN
         IF l = ExplainAt
           THEN /\ PrintT(<<"EXPECTED", [demanded |-> Expected(e),
-                           meaning |-> "kind,has as shown; val iff cmp; d = 0 when strict and not has",
+                           meaning |-> "kind,has as shown; val iff cmp; d = 0 when z; val = u (same operation on the underlying doubles) when uv and has",
                            registers_before |-> r, evals_before |-> evals]>>)
                /\ UNCHANGED vars
           ELSE /\ Dispatch(e)
